@@ -75,6 +75,28 @@ theorem C11_check_only (orig : Testcase) (diskOrig : Bytes) (first : Outcome) (h
       w.exit = (match first with | .accept => .returned 0 | .reject => .returned 1 | .raise => .raised) := by
   cases first <;> simp [runCheckOnly, runCheckOnlyW, beginRun, fresh, interesting, finish, h]
 
+/-- The same clause for ANY history: the `Lithium` object may have been used for any number of earlier runs and be
+in any state `w0` whatsoever (whatever it accepted, wrote or remembers); if the test rejects — or raises on — the
+original of THIS run, exactly one test is run, the file is not written (in particular not with what an earlier run
+ended with) and the status is non-zero.  Holds since the fix that makes `run()` forget `last_interesting`; before
+it, `w0.lastInteresting = some t` with `t.content ≠ w0.disk` was a counterexample (replayed on the real code by
+`second_job_same_object`). -/
+theorem C11_reject_original_any_history (w0 : W) (evs : List Ev) (h0 : w0.testcase.len ≠ 0) :
+    let w := runMainW w0 evs .reject
+    w.tests.length = w0.tests.length + 1 ∧ w.testCount = w0.testCount + 1 ∧ w.diskWrites = w0.diskWrites ∧
+      w.disk = w0.disk ∧ w.exit = .returned 1 := by
+  simp [runMainW, beginRun, dumpOriginal, interesting, finish, h0]
+
+theorem C11_check_only_any_history (w0 : W) (first : Outcome) :
+    let w := runCheckOnlyW w0 first
+    w.tests.length = w0.tests.length + 1 ∧ w.testCount = w0.testCount + 1 ∧
+      (first ≠ .accept → w.diskWrites = w0.diskWrites ∧ w.disk = w0.disk) ∧
+      w.exit = (match first with | .accept => .returned 0 | .reject => .returned 1 | .raise => .raised) := by
+  cases first
+  · by_cases hd : w0.disk = w0.testcase.content <;> simp [runCheckOnlyW, beginRun, interesting, finish, hd]
+  · simp [runCheckOnlyW, beginRun, interesting, finish]
+  · simp [runCheckOnlyW, beginRun, interesting, finish]
+
 /-- non-vacuity: accepted original, one rejected and one accepted candidate: status 0 -/
 example :
     let t (ps : List Bytes) : Testcase := { before := [], parts := ps, reducible := ps.map (fun _ => true), after := [] }
